@@ -731,6 +731,127 @@ Proof.
   apply (fwd_fails2 p kenum _ (21 + n + z) We Bd); discriminate.
 Qed.
 
+(* ---- typedef of a template instantiation `typedef ns::Name < args > NewName ;` ----
+   The parse tree keeps only the Typename of the target (qualifiers of the target are dropped: recorded finding), so the
+   fragment takes targets without const / pointer markers at the top; the arguments are arbitrary well-formed types. *)
+Definition ktypedef : chars := chars_of "typedef".
+Definition templ_top (t : ty) : Prop := match t with TTempl _ _ _ false PNone => True | _ => False end.
+
+Lemma templ_ref_ok : forall t, wf_ty t -> templ_top t -> forall f p r, follow r -> fuel_of t <= f ->
+  exists p', interp g f (GRef "TemplatedType") {| pk := p; rest := render (ty_toks t) r |}
+             = Match [([], ty_value t)] {| pk := p'; rest := r |}.
+Proof.
+  intros t Hw Ht f p r Hr Hf.
+  destruct t as [tn c k b | ns [nm|o] ps c k]; cbn [templ_top] in Ht; try contradiction.
+  destruct c; try contradiction. destruct k; try contradiction. cbn [wf_ty] in Hw.
+    destruct Hw as [[Hp Hres] [Hne Hall]]. apply wf_all in Hall.
+    destruct (names_of_cons ns nm) as [h [l [E Hl]]]. cbn [ty_toks ty_value fuel_of] in *. rewrite E in *. cbn [hd] in Hres.
+    inversion Hp as [|? ? Hh Hrest]; subst.
+    destruct ps as [|t1 ps]; [contradiction|]. cbn [map].
+    set (F0 := fold_right (fun x acc => fuel_of x + acc) 0 (t1 :: ps)) in *.
+    assert (Hsub : forall x, In x (t1 :: ps) -> parses F0 (ty_toks x) (ty_value x)).
+    { intros x Hx. apply (parses_mono (fuel_of x)); [|apply sum_ge; exact Hx].
+      apply (ty_parses (S (depth x))); [lia|rewrite Forall_forall in Hall; apply Hall; exact Hx]. }
+    assert (H1 : parses F0 (ty_toks t1) (ty_value t1)) by (apply Hsub; left; reflexivity).
+    assert (H2 : Forall2 (parses F0) (map ty_toks ps) (map ty_value ps)).
+    { assert (Hs2 : forall x, In x ps -> parses F0 (ty_toks x) (ty_value x)) by (intros x Hx; apply Hsub; right; exact Hx).
+      clearbody F0. clear - Hs2. induction ps as [|x r IHr]; [constructor|]. cbn [map]. constructor; [apply Hs2; left; reflexivity|].
+      apply IHr. intros y Hy. apply Hs2. right. exact Hy. }
+    assert (X : exists f', f = 12 + f' /\ length l <= f' /\ F0 <= f' /\ length (map ty_toks ps) <= f').
+    { exists (f - 12). rewrite map_length. cbn [length] in Hf. fold F0 in Hf. repeat split; lia. }
+    destruct X as [f' [Ef [Hlen [HF Hn]]]]. subst f.
+    assert (Hk : h <> kconst) by (intros Ek; apply Hres; rewrite Ek; vm_compute; tauto).
+    apply (tt_ok f' p false h l _ _ _ _ PNone r F0); assumption.
+Qed.
+
+Definition typedef_toks (t : ty) (name : string) : list chars := [ktypedef] ++ ty_toks t ++ [chars_of name; semi].
+Definition typedef_value (tv : value) (n : chars) : value :=
+  VNode "TypedefTemplateInstantiation" [([], VStr "typedef"); (["templated_type"%string], tv); (["new_name"%string], VStr (string_of n))].
+Definition wf_typedef (t : ty) (name : string) : Prop :=
+  wf_ty t /\ depth t < depth_fuel /\ templ_top t /\ is_ident (chars_of name) = true.
+
+Lemma typedef_ok : forall t n, wf_ty t -> templ_top t -> is_ident n = true ->
+  forall f p R, fuel_of t <= f ->
+  exists p', interp g (8 + f) (GRef "TypedefTemplateInstantiation") {| pk := p; rest := render ([ktypedef] ++ ty_toks t ++ [n; semi]) R |}
+             = Match [([], typedef_value (ty_value t) n)] {| pk := p'; rest := R |}.
+Proof.
+  intros t n Hw Ht Hn f p R Hf. cbn [Nat.add]. rule "TypedefTemplateInstantiation"%string.
+  rewrite i_and, seq_cons, i_and, seq_cons, i_and, seq_cons, i_term.
+  rewrite !render_app. change (render [ktypedef] ?x) with (sp ktypedef x). change (render [n; semi] R) with (sp n (sp semi R)).
+  set (TAIL := sp n (sp semi R)).
+  assert (Bd : boundary (render (ty_toks t) TAIL)) by (apply render_boundary; right; eexists; reflexivity).
+  destruct (kw_self p "t"%char (chars_of "ypedef") (render (ty_toks t) TAIL) eq_refl Bd) as [p1 E1].
+  change (string_of ("t"%char :: chars_of "ypedef")) with "typedef"%string in E1.
+  change (sp ("t"%char :: chars_of "ypedef") (render (ty_toks t) TAIL)) with (sp ktypedef (render (ty_toks t) TAIL)) in E1. rewrite E1. cbn [app].
+  rewrite seq_cons, i_name.
+  destruct (templ_ref_ok t Hw Ht (3 + f) p1 TAIL (follow_ident n _ Hn) ltac:(lia)) as [p2 E2]. cbn [Nat.add] in E2. rewrite E2.
+  cbn [map add_name fst snd]. rewrite seq_nil. cbn [app]. rewrite seq_cons, i_name. unfold TAIL.
+  assert (Bs : boundary (sp semi R)) by (right; eexists; reflexivity).
+  destruct (IDENT_ok (Sn 2 f) p2 n (sp semi R) Hn Bs) as [p3 E3]. cbn [Sn] in E3. unfold IDENT in E3. rewrite E3.
+  cbn [map add_name fst snd]. rewrite seq_nil. cbn [app]. rewrite seq_cons, i_sup.
+  destruct (lit1_at (Sn 4 f) p3 ";"%char R eq_refl) as [p4 E4]. cbn [Sn] in E4. change (sp [";"%char] R) with (sp semi R) in E4.
+  rewrite E4, seq_nil. cbn [app]. exists p4. reflexivity.
+Qed.
+
+Lemma b_decl_typedef : forall k tv n t, b_type tv = Ok t ->
+  b_decl (S k) (typedef_value tv n) = Ok (DTypedef (ty_typename t) (string_of n)).
+Proof.
+  intros k tv n t H. unfold typedef_value. cbn [b_decl].
+  repeat match goal with |- context [String.eqb ?a ?b] =>
+    let x := eval vm_compute in (String.eqb a b) in change (String.eqb a b) with x end.
+  cbv iota.
+  change (first_named "templated_type" [([], VStr "typedef"); (["templated_type"%string], tv); (["new_name"%string], VStr (string_of n))]) with (Some tv).
+  change (first_named "new_name" [([], VStr "typedef"); (["templated_type"%string], tv); (["new_name"%string], VStr (string_of n))]) with (Some (VStr (string_of n))).
+  cbv iota. rewrite H. reflexivity.
+Qed.
+
+Lemma templ_shape : forall t, wf_ty t -> templ_top t ->
+  exists h c t' rest', ty_toks t = h :: (c :: t') :: rest' /\ is_ident h = true /\ solid c = true /\
+                       ceq "("%char c = false /\ ceq "="%char c = false /\ ceq ";"%char c = false.
+Proof.
+  intros t Hw Ht. destruct t as [tn c k b | ns [nm|o] ps c k]; cbn [templ_top] in Ht; try contradiction.
+  destruct c; try contradiction. destruct k; try contradiction. cbn [wf_ty] in Hw. destruct Hw as [[Hp _] _].
+  destruct (names_of_cons ns nm) as [h [l [E _]]]. cbn [ty_toks]. rewrite E in *. inversion Hp as [|? ? Hh _]; subst.
+  unfold tt_toks. cbn [const_toks app]. rewrite path_toks_cons. destruct l as [|m l]; cbn [tail_toks flat_map app].
+  - exists h, "<"%char, [], (sep_toks (map ty_toks ps) ++ [gt_tok] ++ marker PNone). repeat split; try reflexivity; exact Hh.
+  - exists h, ":"%char, [":"%char], (m :: tail_toks l ++ [lt_tok] ++ sep_toks (map ty_toks ps) ++ [gt_tok] ++ marker PNone).
+    repeat split; try reflexivity; exact Hh.
+Qed.
+
+Lemma typedef_kw_parses : parses 13 [ktypedef] (ty_value (kw_type "typedef")).
+Proof. apply kw_parses; [reflexivity | vm_compute; intuition discriminate]. Qed.
+
+Lemma content_step_typedef : forall t name, wf_typedef t name -> forall p R f, 40 + fuel_of t <= f ->
+  exists v p', interp g f OR7 {| pk := p; rest := render (typedef_toks t name) R |} = Match [([], v)] {| pk := p'; rest := R |}
+               /\ forall k, b_decl (S k) v = Ok (DTypedef (ty_typename t) name).
+Proof.
+  intros t name [Hw [Hd [Ht Hn]]] p R f Hf. set (n := chars_of name) in *. set (ft := fuel_of t) in *.
+  assert (X : exists z, f = Sn 7 (30 + ft + z)) by (exists (f - 37 - ft); cbn [Sn]; lia). destruct X as [z Ef]. subst f. cbn [Sn].
+  unfold typedef_toks. fold n.
+  destruct (typedef_ok t n Hw Ht Hn (24 + ft + z) p R ltac:(unfold ft; lia)) as [p' E].
+  exists (typedef_value (ty_value t) n), p'. split.
+  2:{ intros k. rewrite <- (string_chars name). fold n. apply b_decl_typedef. unfold b_type. apply (ty_rebuilt depth_fuel t Hd Hw). }
+  destruct (templ_shape t Hw Ht) as [h [c [t' [rest' [Es [Hh [Cs [Cl [Ce Csm]]]]]]]]].
+  set (TXT := render ([ktypedef] ++ ty_toks t ++ [n; semi]) R) in *.
+  set (X := render (rest' ++ [n; semi]) R).
+  assert (ET : TXT = sp ktypedef (sp h (sp (c :: t') X))).
+  { unfold TXT, X. rewrite Es. cbn [app render fold_right]. reflexivity. }
+  assert (Wt : word ktypedef) by (split; [discriminate | reflexivity]).
+  assert (Bd : boundary (sp h (sp (c :: t') X))) by (right; eexists; reflexivity).
+  assert (EQ : 8 + (24 + ft + z) = S (S (30 + ft + z))) by lia. rewrite EQ in E. rewrite ET in *.
+  unfold OR7. apply or2_l; [|apply (namespace_fails p ktypedef _ Wt Bd (29 + ft + z)); discriminate].
+  unfold OR6. apply or2_l.
+  2:{ apply (variable_fails 13 [ktypedef] (ty_value (kw_type "typedef")) h c t' X typedef_kw_parses Hh Cs Ce Csm (27 + ft + z) p). lia. }
+  unfold OR5. apply or2_l; [|apply (enum_fails2 p ktypedef _ (24 + ft + z) Wt Bd); discriminate].
+  unfold OR4. apply or2_l.
+  2:{ apply (function_fails 13 [ktypedef] (ty_value (kw_type "typedef")) h c t' X typedef_kw_parses
+                            (wf_head_kw ktypedef Wt ltac:(discriminate) ltac:(discriminate)) Hh Cs Cl (13 + ft + z) p). lia. }
+  unfold OR3. rewrite or2_r; [exact E|].
+  unfold OR2. rewrite or2_r; [apply (class_fails2 p ktypedef _ (13 + ft + z) Wt Bd); discriminate|].
+  unfold OR1. rewrite or2_r; [apply (include_fails2 p ktypedef _ (24 + ft + z) Wt Bd)|].
+  apply (fwd_fails2 p ktypedef _ (21 + ft + z) Wt Bd); discriminate.
+Qed.
+
 (* ---- where a run of declarations stops: at the end of the text, or at the closing brace of a namespace ---- *)
 
 Lemma ty_fails_at_rbrace : forall f p X, interp g (12 + f) TY {| pk := p; rest := sp rbrace X |} = Fail.
@@ -1095,6 +1216,7 @@ Inductive item : Type :=
 | IFwd (virt : bool) (name : string)
 | IInc (header : string)
 | IEnum (name : string) (enumerators : list string)
+| ITypedef (t : ty) (name : string)
 | INs (name : string) (body : list item).
 
 Fixpoint itoks (i : item) : list chars :=
@@ -1104,6 +1226,7 @@ Fixpoint itoks (i : item) : list chars :=
   | IFwd v n => fwd_toks v n
   | IInc h => inc_toks h
   | IEnum n l => enum_toks n l
+  | ITypedef t n => typedef_toks t n
   | INs n b => [knamespace; chars_of n; lbrace] ++ flat_map itoks b ++ [rbrace]
   end.
 Definition items_toks (l : list item) : list chars := flat_map itoks l.
@@ -1114,10 +1237,11 @@ Fixpoint idecl (i : item) : decl :=
   | IFwd v n => fwd_decl v n
   | IInc h => DInclude h
   | IEnum n l => enum_decl n l
+  | ITypedef t n => DTypedef (ty_typename t) n
   | INs n b => DNamespace n (map idecl b)
   end.
 Fixpoint idepth (i : item) : nat :=
-  match i with IFn _ => 0 | IVar _ _ => 0 | IFwd _ _ => 0 | IInc _ => 0 | IEnum _ _ => 0 | INs _ b => S (fold_right (fun x acc => Nat.max (idepth x) acc) 0 b) end.
+  match i with IFn _ => 0 | IVar _ _ => 0 | IFwd _ _ => 0 | IInc _ => 0 | IEnum _ _ => 0 | ITypedef _ _ => 0 | INs _ b => S (fold_right (fun x acc => Nat.max (idepth x) acc) 0 b) end.
 Fixpoint wf_item (i : item) : Prop :=
   match i with
   | IFn x => wf_fn x
@@ -1125,6 +1249,7 @@ Fixpoint wf_item (i : item) : Prop :=
   | IFwd _ n => is_ident (chars_of n) = true
   | IInc h => path_ok_c (chars_of h)
   | IEnum n l => wf_enum n l
+  | ITypedef t n => wf_typedef t n
   | INs n b => is_ident (chars_of n) = true /\ (fix all (l : list item) : Prop := match l with [] => True | x :: r => wf_item x /\ all r end) b
   end.
 Fixpoint need (i : item) : nat :=
@@ -1134,6 +1259,7 @@ Fixpoint need (i : item) : nat :=
   | IFwd _ _ => 40
   | IInc _ => 40
   | IEnum _ l => 40 + length l
+  | ITypedef t _ => 40 + fuel_of t
   | INs _ b => 37 + length b + fold_right (fun x acc => need x + acc) 0 b
   end.
 Definition needs (l : list item) : nat := 31 + length l + fold_right (fun x acc => need x + acc) 0 l.
@@ -1181,7 +1307,7 @@ Proof.
       set (REST := render (items_toks items) R) in *.
       assert (Step : exists v p1, interp g F OR7 {| pk := p; rest := render (itoks i) REST |} = Match [([], v)] {| pk := p1; rest := REST |}
                                   /\ forall bf, S n <= bf -> b_decl bf v = Ok (idecl i)).
-      { destruct i as [x|t nm|vt nm|hd|en el|nm b].
+      { destruct i as [x|t nm|vt nm|hd|en el|tt tnm|nm b].
         - cbn [wf_item itoks idecl need] in *. destruct (content_step x Hwi p REST F ltac:(lia)) as [v [p1 [E B]]].
           exists v, p1. split; [exact E|]. intros bf Hbf. destruct bf as [|bf]; [lia|]. apply B.
         - cbn [wf_item itoks idecl need] in *. destruct (content_step_var t nm Hwi p REST F ltac:(lia)) as [v [p1 [E B]]].
@@ -1191,6 +1317,8 @@ Proof.
         - cbn [wf_item itoks idecl need] in *. destruct (content_step_inc hd Hwi p REST F ltac:(lia)) as [v [p1 [E B]]].
           exists v, p1. split; [exact E|]. intros bf Hbf. destruct bf as [|bf]; [lia|]. apply B.
         - cbn [wf_item itoks idecl need] in *. destruct (content_step_enum en el Hwi p REST F ltac:(lia)) as [v [p1 [E B]]].
+          exists v, p1. split; [exact E|]. intros bf Hbf. destruct bf as [|bf]; [lia|]. apply B.
+        - cbn [wf_item itoks idecl need] in *. destruct (content_step_typedef tt tnm Hwi p REST F ltac:(lia)) as [v [p1 [E B]]].
           exists v, p1. split; [exact E|]. intros bf Hbf. destruct bf as [|bf]; [lia|]. apply B.
         - cbn [wf_item itoks idecl need idepth] in *. destruct Hwi as [Hnm Hall].
           assert (Hb : forall j, In j b -> idepth j < n /\ wf_item j).
@@ -1353,7 +1481,7 @@ Qed.
 
 Lemma item_facts : forall n i, idepth i < n -> wf_item i -> Forall tok_ok (itoks i) /\ need i + 1 <= 32 * length (itoks i).
 Proof.
-  induction n as [|n IH]; intros i Hd Hw; [lia|]. destruct i as [x|t nm|vt nm|hd|en el|nm b].
+  induction n as [|n IH]; intros i Hd Hw; [lia|]. destruct i as [x|t nm|vt nm|hd|en el|tt tnm|nm b].
   - cbn [wf_item itoks need] in *. destruct (fn_facts x Hw) as [F1 [F2 F3]]. split; [exact F1 | lia].
   - cbn [wf_item itoks need] in *. destruct Hw as [Hw [Hdt [_ Hn]]]. destruct (ty_facts _ _ Hdt Hw) as [T1 T2]. unfold var_toks. split.
     + apply Forall_app. split; [exact T1|]. constructor; [apply ident_tok; exact Hn | tok_lit].
@@ -1374,6 +1502,9 @@ Proof.
     + assert (L : length (more_toks (map (fun y : string => [chars_of y]) el)) = 2 * length el).
       { clear. induction el as [|y el IH]; [reflexivity|]. cbn [map]. rewrite more_toks_cons. cbn [length app]. rewrite IH. lia. }
       cbn [length app]. rewrite !app_length. cbn [length]. rewrite L. lia.
+  - cbn [wf_item itoks need] in *. destruct Hw as [Hw [Hdt [_ Hn]]]. destruct (ty_facts _ _ Hdt Hw) as [T1 T2]. unfold typedef_toks. split.
+    + constructor; [tok_lit|]. apply Forall_app. split; [exact T1|]. constructor; [apply ident_tok; exact Hn | tok_lit].
+    + cbn [app length]. rewrite app_length. cbn [length]. lia.
   - cbn [wf_item itoks need idepth] in *. destruct Hw as [Hnm Hall].
     assert (Hb : forall j, In j b -> Forall tok_ok (itoks j) /\ need j + 1 <= 32 * length (itoks j)).
     { intros j Hj. apply IH; [pose proof (idepth_ge b j Hj); lia | apply (wf_items_all b Hall j Hj)]. }
